@@ -373,6 +373,19 @@ def check_accumulator_window(ctx, facts):
                 e = flow.expr_of(b, t["args"][1])
                 if e[0] == "call" and e[1].endswith("Mul::mul"):
                     prods.append(bb)
+        if not prods:
+            # iterator form: `self.value.iter_mut().zip(..).for_each(|(acc, (l, r))| *acc += A::from(l) * A::from(r))`
+            old_cd = flow.CLOSURE_DEFS
+            flow.CLOSURE_DEFS = True
+            try:
+                for bb, t in b.calls():
+                    if (F.callee(t)[0] or "").endswith("Iterator::for_each") and "value" in flow.field_names_in(flow.expr_of(b, t["args"][0], max_depth=12)) and "iter_mut" in str(flow.expr_of(b, t["args"][0], max_depth=12)):
+                        cl = flow.expr_of(b, t["args"][1], max_depth=4)
+                        cb = facts.bodies.get(cl[1][1]) if cl[0] == "agg" and isinstance(cl[1], tuple) else None
+                        if cb is not None and any((F.callee(t2)[0] or "").endswith("AddAssign::add_assign") and "('arg', 2" in str(flow.expr_of(cb, t2["args"][0], max_depth=8)) and "Mul::mul" in str(flow.expr_of(cb, t2["args"][1], max_depth=8)) for _, t2 in cb.calls()):
+                            prods.append(bb)
+            finally:
+                flow.CLOSURE_DEFS = old_cd
         incs, resets, reduces = [], [], []
         for bb, idx, st in b.iter_assigns():
             last = st["p"][-1] if len(st["p"]) > 1 else None
